@@ -156,14 +156,14 @@ func (c *seqLockedConn) Execute(sql string, maxRows int) (*mysql.Result, error) 
 }
 
 func c34Concurrent(r *core.Run) {
-	rounds := 6
+	rounds := 40
 	if r.Tier != "quick" {
-		rounds = 40
+		rounds = 200
 	}
 	dups := 0
 	var first string
 	for round := 0; round < rounds && dups == 0; round++ {
-		incr := int64(1 + round%3)
+		incr := int64(1 + round%2) // small blocks: a fetch on (almost) every call
 		row := &seqRow{present: true, current: 100, increment: incr}
 		pool := &seqLockedPool{mu: &sync.Mutex{}, row: row}
 		slice := &backend.Slice{Master: &backend.DBInfo{Nodes: []*backend.NodeInfo{{
